@@ -129,6 +129,23 @@ class IdMap(SymObj):
         return self.has(k.t)
 
 
+def _map_get(self, I, name):
+    """dict.get(key, default=None) on the functional maps"""
+    if name == "get":
+
+        def get(I, k, default=None):
+            if I.branch(self.py_contains(I, k)):
+                return self.py_getitem(I, k)
+            return default
+
+        return Builtin("get", get)
+    raise OutOfSubset(f"{type(self).__name__}.{name}")
+
+
+VarMap.py_getattr = _map_get
+IdMap.py_getattr = _map_get
+
+
 class DB(SymObj):
     FIELDS = ("default_name", "count", "variables", "names", "registered")
 
